@@ -78,7 +78,8 @@ type peerSpec struct {
 	asyncN   int    // frames per asynchronous writer
 	wakes    int    // Wake requests issued by a user goroutine
 	udp      bool
-	flood    bool // the loop is held inside the first OnTraffic until the asynchronous writers have issued everything
+	stopOn   string // "", "OnOpen", "OnTraffic", "OnClose": this connection's callback returns Shutdown
+	flood    bool   // the loop is held inside the first OnTraffic until the asynchronous writers have issued everything
 	// runtime
 	delivered int64 // bytes the handler has been given (for lock-step peers)
 	laddr     string
@@ -138,9 +139,14 @@ func (h *vhandler) OnTick() (time.Duration, Action) {
 	h.rec.emit("Tick", "g", vsup.Goid(), "n", int(n))
 	if s := atomic.LoadInt32(&h.tickStop); s > 0 && n >= s {
 		h.rec.emit("StopReq", "src", "OnTick", "g", vsup.Goid())
+		h.rec.emit("TickEnd", "n", int(n))
 		return time.Hour, Shutdown
 	}
-	return 20 * time.Millisecond, None
+	if n%3 == 0 {
+		time.Sleep(25 * time.Millisecond) // a tick that takes a while: shutdown requests arrive while it runs
+	}
+	h.rec.emit("TickEnd", "n", int(n))
+	return 10 * time.Millisecond, None
 }
 
 func (h *vhandler) lookupPeer(addr string) *peerSpec {
@@ -221,6 +227,11 @@ func (h *vhandler) OnOpen(c Conn) (out []byte, action Action) {
 		h.rec.emit("CloseReq", "c", sp.id, "how", "action-onopen")
 		h.rec.emit("OpenEnd", "c", sp.id, "action", "Close")
 		return out, Close
+	}
+	if sp.stopOn == "OnOpen" {
+		h.rec.emit("StopReq", "src", "OnOpen", "g", g)
+		h.rec.emit("OpenEnd", "c", sp.id, "action", "Shutdown")
+		return out, Shutdown
 	}
 	h.rec.emit("OpenEnd", "c", sp.id, "action", "None")
 	return out, None
@@ -399,6 +410,9 @@ func (h *vhandler) OnTraffic(c Conn) Action {
 		action = h.closeNow(vc, c)
 	} else {
 		h.writeOps(vc, c)
+	}
+	if sp.stopOn == "OnTraffic" && vc.consumed >= sp.total/2 {
+		atomic.StoreInt32(&h.stopFromTraffic, int32(sp.id))
 	}
 	if atomic.LoadInt32(&h.stopFromTraffic) == int32(sp.id) {
 		atomic.StoreInt32(&h.stopFromTraffic, 0)
@@ -668,7 +682,7 @@ func (h *vhandler) OnClose(c Conn, err error) Action {
 		n, werr := c.Write([]byte("bye"))
 		h.rec.emit("CloseWrite", "c", vc.spec.id, "n", n, "err", errClass(werr))
 	}
-	if vc.spec.closeHow == "shutdown-onclose" {
+	if vc.spec.stopOn == "OnClose" {
 		h.rec.emit("StopReq", "src", "OnClose", "g", g)
 		return Shutdown
 	}
